@@ -86,11 +86,38 @@ ZONES = {"utc": ("+0000", 0), "east": ("+0200", 120), "west": ("-0500", -300), "
 ZONE_SHIFT_H = {"utc": 0, "east": 1, "west": 2, "half": 3, "gmt": 4}     # distinct instants per zone
 
 KNOWN_TYPES = {"txt": "text/plain", "html": "text/html", "csv": "text/csv",
-               "docx": "application/vnd.openxmlformats-officedocument.wordprocessingml.document"}
-EXT = {"txt": "txt", "html": "html", "csv": "csv", "docx": "docx", "bin": "bin"}
-FN_STEMS = {"ascii": ["notes", "page", "data_2026-Q3", "report final", "a.b.c"],
+               "docx": "application/vnd.openxmlformats-officedocument.wordprocessingml.document",
+               "pptx": "application/vnd.openxmlformats-officedocument.presentationml.presentation",
+               "xlsx": "application/vnd.openxmlformats-officedocument.spreadsheetml.sheet",
+               "odt": "application/vnd.oasis.opendocument.text", "ods": "application/vnd.oasis.opendocument.spreadsheet",
+               "odp": "application/vnd.oasis.opendocument.presentation", "odg": "application/vnd.oasis.opendocument.graphics",
+               "pdf": "application/pdf", "rtf": "application/rtf", "epub": "application/epub+zip"}
+EXT = {k: k for k in KNOWN_TYPES} | {"bin": "bin"}
+RENDERED = ("pptx", "xlsx", "odt", "ods", "odp", "odg", "pdf", "rtf", "epub")     # written by the shared writers
+FN_STEMS = {"ascii": ["notes", "page", "data_2026-Q3", "report final", "Quarterly figures"],
             "rfc2231": ["Übersicht 日本", "résumé été", "Отчёт", "naïve–file"],
             "rfc2047": ["Müller Angebot", "日本語ファイル", "año_2026"]}
+# name SHAPES (Mail.tla NameShapes): how the stem is dressed up; {s} = the stem
+NAME_SHAPES = {"plain": ["{s}"],
+               "slash": ["2019/2020 {s}", "AC/DC {s}", "dir/sub dir/{s}"],
+               "bslash": ["AC\\DC {s}", "sub\\{s}"],
+               "drive": ["C:\\Users\\x\\{s}", "D:\\{s}", "C:/temp/{s}"],
+               "dot": [".{s}", ".hidden {s}"],
+               "updir": ["../{s}", "..\\..\\{s}", "../../etc/{s}"],
+               "blank": ["{s} ", " {s}", "  {s}  "],
+               "special": ["semi;colon {s}", 'quo"te {s}', "per%20cent {s}", "a=b&c {s}", "(paren) [br] {s}"]}
+_RENDER_CACHE: dict = {}
+
+
+def rendered_doc(fmt: str, j: int) -> bytes:
+    """A small valid document of a supported type, from the writers shared with the other checks."""
+    if (fmt, j) not in _RENDER_CACHE:
+        from .docrun import render, rich_doc
+        d = rich_doc(fmt, seed=j)
+        if isinstance(d.get("props"), dict):
+            d["props"] = dict(d["props"], title=f"Attachment {j} title")
+        _RENDER_CACHE[(fmt, j)] = render(d, fmt)
+    return _RENDER_CACHE[(fmt, j)]
 
 
 def minimal_docx(words: str) -> bytes:
@@ -131,6 +158,8 @@ def payload_bytes(pl: str, j: int, fixture_docx: bytes | None) -> bytes:
         if j == 1 and fixture_docx:
             return fixture_docx
         return minimal_docx(f"Generated docx attachment number {j}")
+    if pl in RENDERED:
+        return rendered_doc(pl, j)
     if pl == "bin":
         return bytes(range(256)) + b"\r\n\n\r\x00From here\n" + bytes([j]) * 7 + b"\xff\xfe"
     raise ValueError(pl)
@@ -255,10 +284,15 @@ class Case:
                 + (["application/octet-stream"] if pl == "bin" else []))
             fn = None
             if a["fn"] != "none":
-                fn = f"{rng.choice(FN_STEMS[a['fn']])} {j}.{EXT[pl]}"
+                stem = f"{rng.choice(FN_STEMS[a['fn']])} {j}"
                 if a["fn"] == "ascii" and rng.random() < 0.5:
-                    fn = fn.replace(" ", "_")
-                self.rev_fn[fn] = ["fn", a["fn"], j]
+                    stem = stem.replace(" ", "_")
+                # extension: the payload's own / none / a misleading one (plain-text family)
+                ext = {"ext": "." + EXT[pl], "noext": "", "wrongext": ".csv" if pl == "txt" else ".txt"}[a["nx"]]
+                fn = rng.choice(NAME_SHAPES[a["ns"]]).replace("{s}", stem + ext)
+                self.rev_fn[fn.strip()] = ["fn", a["fn"], j]                      # DC9: outer blanks
+            if data in self.rev_bytes:
+                raise ValueError(f"payload bytes of attachment {j} ({pl}) are not unique in this message")
             self.rev_type[mt] = ["type", pl, 1 if a["known"] else 0]
             self.rev_bytes[data] = ["bytes", pl, j]
             self.rev_bytes_nl[data.replace(b"\r\n", b"\n")] = ["bytesnl", pl, j]
@@ -308,7 +342,7 @@ class Case:
             if a["a"]["fn"] == "rfc2047":
                 # the non-standard but ubiquitous form filename="=?utf-8?B?...?=": the modern policy would
                 # re-encode it as RFC 2231, so a placeholder is written and replaced in the final bytes
-                kw["filename"] = f"C16PH{a['j']}.{EXT[pl]}"
+                kw["filename"] = f"C16PH{a['j']}.bin"
         if cte == "qp" and pl in ("txt", "html", "csv") and maintype == "text":
             # textual route: the content manager canonicalises line ends (DC8)
             msg.add_attachment(a["data"].decode("utf-8"), subtype=subtype, charset="utf-8",
@@ -490,7 +524,7 @@ class Case:
         for a in self.atts:
             if a["fn"] is not None and a["a"]["fn"] == "rfc2047":
                 ew = encode_words(a["fn"], "utf-8", self.rng.choice(["b", "q"])).encode("ascii")
-                ph = re.compile(rb'filename="?C16PH%d\.%s"?' % (a["j"], EXT[a["pl"]].encode()))
+                ph = re.compile(rb'filename="?C16PH%d\.bin"?' % a["j"])
                 b = ph.sub(b'filename="' + ew + b'"', b)
         return b
 
@@ -555,7 +589,7 @@ class Case:
         for idx, a in enumerate(c.attachments):
             data = a.data.getvalue()
             bt = self.rev_bytes.get(data) or self.rev_bytes_nl.get(data.replace(b"\r\n", b"\n")) or UNKNOWN
-            atts.append({"name": self.rev_fn.get(a.filename, UNKNOWN),
+            atts.append({"name": self.rev_fn.get((a.filename or "").strip(), UNKNOWN),
                          "type": self.rev_type.get(a.mime_type, UNKNOWN),
                          "bytes": bt, "sup": bool(a.is_supported_mime_type),
                          "supp": supp_fn(c, idx, bt) if supp_fn else ABSENT,
